@@ -16,6 +16,8 @@ import Lattigo.Model.Bootstrap
         → `qCount,pCount,s2cLevelQ,mod1LevelQ,c2sLevelQ,mod1Depth,checks`
   * `needed res= s2c= c2s= m1= rsv= logp=` → `name/minLevelQ/levelP;…` per key kind (`*` = any LevelP)
   * `scaleconst q0= evalmod= ratio= logscale= k= ci=` → `round(log2 Q0),-log2 qDiv,log2 ScalingFactor,log2 StCScaling,C2SScaling num/den`
+  * `scaledown qs= logscale= ratio= level=` → `level,scaleUpBigint,product of rescaled primes` or `err` (`Evaluator.ScaleDown`)
+  * `dft_layers enc= logSlots=` → the fully split factorisation: per matrix `diag:codes;…` (codes: exponent of ζ, 4n = zero), matrices joined by `/`
   * `stages res= s2c= c2s= m1= rsv=` → levels after ModUp, CoeffsToSlots, EvalMod, SlotsToCoeffs
   * `output res= s2c= c2s= m1= rsv= iter= logscale=` → `level,scale`
   * `probe …` → `holds`
@@ -128,6 +130,29 @@ def handle (toks : List String) : String :=
       showVec [roundLog2 q0, l.qDivNegLog, em] ++ "," ++ toString l.s2cScalingLog ++ "," ++
         toString l.c2sScaling.1 ++ "/" ++ toString l.c2sScaling.2
     | _, _, _, _, _, _ => badOp
+  | "scaledown" :: rest =>
+    match vecArg rest "qs", natArg rest "logscale", natArg rest "ratio", natArg rest "level" with
+    | some qs, some ls, some r, some l =>
+      match scaleDown qs (2 ^ ls) r l with
+      | some (lv, n, den) => let g := Nat.gcd n den; showVec [lv, n / g, den / g]
+      | none => "err"
+    | _, _, _, _ => badOp
+  | "dft_layers" :: rest =>
+    match boolArg rest "enc", natArg rest "logSlots" with
+    | some enc, some ls =>
+      let n := 2 ^ ls
+      let codes := fun (f : Nat → RootEnt) => (List.range n).map fun x => (f x).code n
+      let mats := (List.range ls).map fun t =>
+        let l := dftLayer enc ls (ls - t)
+        let r2 := n - l.rot
+        let ds : List (Nat × List Nat) :=
+          if l.rot = r2 then
+            [(0, codes l.a), (l.rot, codes fun x => if l.b x = .zero then l.c x else l.b x)]
+          else [(0, codes l.a), (l.rot, codes l.b), (r2, codes l.c)]
+        ";".intercalate ((ds.map fun dv => (dv.1, toString dv.1 ++ ":" ++ showVec dv.2)).toArray.qsort (fun x y => x.1 < y.1)
+          |>.toList.map (·.2))
+      "/".intercalate mats
+    | _, _ => badOp
   | "stages" :: rest =>
     match natArg rest "m1" with
     | some m1 =>
